@@ -20,7 +20,7 @@ def _single_return_text(f):
     return norm(r[0].value) if len(r) == 1 else None
 
 
-@rule('C03.g', ['C03', 'C07', 'C04', 'C08'], floor=8)
+@rule('C03.g', ['C03', 'C07', 'C04', 'C08', 'C05'], floor=8)
 def result_reports_the_recorded_outcome(ctx):
     """TransferCoordinator.result waits for the done event, then raises the recorded exception if
     there is one and returns the recorded result otherwise (path rule); set_result stores its
